@@ -8,12 +8,20 @@ def body(c):
     traces, meta = pfamily.explore(S, seed=c.seed, workers=12)
     pfamily.account(c, traces, meta)
     pfamily.validate(c, traces, meta, "C01")
+    S2 = pscen.l2("C01", c.quick)
+    t2, m2 = pfamily.explore_l2(S2, seed=c.seed, workers=12)
+    pfamily.account(c, t2, m2)
+    pfamily.validate(c, t2, m2, "C01", label="L2")
+    c.extra["l2_scenarios"] = len(S2); c.extra["l2_executions"] = len(t2)
+    c.extra["l2_not_finished"] = sum(1 for m in m2 if m["status"] != "finished")
     c.extra["scenarios"] = len(S)
     c.rule = ("executions of the real joblib.Parallel under the single-thread controlled backend (L1): stateless DFS / seeded "
               "random walks over completion order x placement of each completion callback relative to the caller's critical "
               "sections and polls x consumer decisions; non-trivial = distinct (configuration, schedule) with at least one "
               "completion delivered at a non-default point")
-    c.assumptions += ["callbacks are atomic w.r.t. the caller in the L1 driver (L2/L3 drivers lift this)",
+    c.rule += ("; L2: seeded schedules of real threads (caller + serial or concurrent callback threads) under a hand-off scheduler "
+               "with yield points at lock acquire/release, inside the input iterator, in submit, at polls")
+    c.assumptions += ["L1: callbacks are atomic w.r.t. the caller; L2: pre-emption only at the listed yield points",
                       "backend behaves like the documented extension API (ControlledBackend)"]
 
 
